@@ -3,6 +3,7 @@ From Coq Require Import ZArith List Bool Reals. Import ListNotations.
 From PV Require Import Num NumR model.Geom proofs.LatticeFacts proofs.SiteFacts proofs.OverlapFacts proofs.PackingFacts proofs.LJFacts.
 From PV Require Import gen.GenFns proofs.SourceFacts.
 From PV Require Import proofs.SourceCorollaries.
+From PV Require Import model.Iter proofs.SearchFacts.
 
 Theorem C13_lj_is_12_6 :
   forall (a b : ljR) (r : R), lcut NumR a = None -> (0 < r)%R -> (r * r)%R = r2_of a b -> energy
@@ -104,4 +105,11 @@ Theorem C13_source_lj_symmetric_like :
     lcut NumR b -> gen_lj_energy NumR rpowi a b = gen_lj_energy NumR rpowi b a.
 Proof. exact source_lj_symmetric_like. Qed.
 Print Assumptions C13_source_lj_symmetric_like.
+
+
+Theorem C13_lj_score_is_source :
+  forall (NN : Num) (powi : carrier NN -> Z -> carrier NN) (st : ljstate NN), gen_lj_score NN
+    powi st = lj_score NN powi st.
+Proof. exact lj_score_is_source. Qed.
+Print Assumptions C13_lj_score_is_source.
 
